@@ -149,11 +149,118 @@ class FlipComparisons:
     return {self.file: ast.unparse(tree)}
 
 
+def apply_unified_diff(text, diff_text, file):
+  """Apply the hunks of `diff_text` that concern `file` to `text` (exact context match at the stated line,
+  or at the unique position where the hunk's old lines occur).  None if a hunk does not apply."""
+  lines = text.split('\n')
+  cur = None
+  hunks = []
+  for ln in diff_text.rstrip('\n').split('\n'):
+    if ln.startswith('+++ '):
+      cur = ln[4:].strip()
+      cur = cur[2:] if cur.startswith('b/') else cur
+      continue
+    if ln.startswith('--- ') or ln.startswith('diff ') or ln.startswith('index '):
+      continue
+    if ln.startswith('@@'):
+      if cur == file:
+        try:
+          start = int(ln.split()[1].split(',')[0][1:])
+        except (IndexError, ValueError):
+          return None
+        hunks.append([start, []])
+      else:
+        hunks.append(None)
+      continue
+    if hunks and hunks[-1] is not None and cur == file and (ln[:1] in ' +-' or ln == ''):
+      if ln.startswith('\\'):
+        continue
+      hunks[-1][1].append(ln if ln else ' ')
+  hunks = [h for h in hunks if h is not None]
+  if not hunks:
+    return None
+  offset = 0
+  for start, body in hunks:
+    while body and body[-1] == ' ' and len([b for b in body if b[:1] in ' -']) > len(lines):
+      body.pop()
+    old = [b[1:] for b in body if b[:1] in ' -']
+    new = [b[1:] for b in body if b[:1] in ' +']
+    pos = start - 1 + offset
+    if lines[pos:pos + len(old)] != old:
+      # trailing blank context line produced by splitting on the final newline
+      if old and old[-1] == '' and lines[pos:pos + len(old) - 1] == old[:-1]:
+        old, new = old[:-1], (new[:-1] if new and new[-1] == '' else new)
+      else:
+        cands = [i for i in range(len(lines) - len(old) + 1) if lines[i:i + len(old)] == old]
+        if len(cands) != 1:
+          return None
+        pos = cands[0]
+    lines[pos:pos + len(old)] = new
+    offset += len(new) - len(old)
+  return '\n'.join(lines)
+
+
+class PatchVariant:
+  """A variant given as a unified diff (a confirmed seeded change or a confirmed harmless refactoring kept under
+  /verif): applied in memory to the current source of the one file it touches.  strict: an analysis error does not
+  count as a report."""
+  strict = True
+
+  def __init__(self, name, patch_path, expect, rule=None):
+    self.name = name
+    self.patch_path = patch_path
+    self.expect = expect
+    self.rule = rule
+    txt = open(patch_path, encoding='utf-8').read()
+    files = [l[4:].strip() for l in txt.split('\n') if l.startswith('+++ ')]
+    self.file = files[0][2:] if files and files[0].startswith('b/') else (files[0] if files else '?')
+    self._diff = txt
+
+  def overlay(self, repo=None):
+    repo = repo or REPO
+    try:
+      src = open(os.path.join(repo, self.file), encoding='utf-8').read()
+    except OSError:
+      return None
+    new = apply_unified_diff(src, self._diff, self.file)
+    if new is None or new == src:
+      return None
+    try:
+      ast.parse(new)
+    except SyntaxError:
+      return None
+    return {self.file: new}
+
+
+def kept_patches(prop):
+  """The confirmed seeded changes aimed at `prop` (must be reported) and the confirmed harmless refactorings
+  of code `prop` depends on (must stay silent), from /verif/seeded and /verif/harmless."""
+  import json
+  out = []
+  root = os.path.dirname(os.path.dirname(os.path.abspath(__file__)))
+  for kind, expect in (('seeded', 'fire'), ('harmless', 'silent')):
+    d = os.path.join(root, kind)
+    if not os.path.isdir(d):
+      continue
+    for sid in sorted(os.listdir(d)):
+      pp, mp = os.path.join(d, sid, 'patch.diff'), os.path.join(d, sid, 'meta.json')
+      if not (os.path.isfile(pp) and os.path.isfile(mp)):
+        continue
+      try:
+        meta = json.load(open(mp))
+      except ValueError:
+        continue
+      if meta.get('property') == prop:
+        out.append(PatchVariant('%s %s (%s/%s)' % ('seeded change' if expect == 'fire' else 'harmless refactoring', sid, kind, sid), pp, expect))
+  return out
+
+
 def all_variants(mod):
   muts = list(getattr(mod, 'MUTANTS', []))
   funcs = getattr(mod, 'RENAME_FUNCS', [])
   muts.extend(local_renames(funcs))
   muts.extend(FlipComparisons(f, q) for (f, q) in funcs)
+  muts.extend(kept_patches(getattr(mod, 'PROPERTY', None)))
   return muts
 
 
@@ -200,7 +307,7 @@ def run_selftest(prop, mod, baseline_keys, seed=0, jobs=None):
         killed += 1
         row['result'] = 'reported'
         row['reported_rules'] = sorted(set(k[1] for k in new))
-      elif status == 'analysis-error':
+      elif status == 'analysis-error' and not getattr(m, 'strict', False):
         # fail-closed: an undecidable variant is not a pass of the variant,
         # but it is not a silent miss either
         killed += 1
